@@ -257,7 +257,7 @@ def leanchecker(module):
 
 # ---------------------------------------------------------------- two-sided runs
 
-def run_model(component, ops_text, timeout=600):
+def run_model(component, ops_text, timeout=3600):
     exe = model_exe()
     p = run([exe, component], input=ops_text, timeout=timeout)
     if p.returncode != 0:
